@@ -53,7 +53,7 @@ func TestC15(t *testing.T) {
 	defer m.Done()
 	variant := os.Getenv("VERIF_VARIANT")
 	purego := strings.Contains(variant, "purego")
-	m.Rule("case i = (mode, memory class, lanes, keyLen) taken from a fixed full-cycle enumeration of {argon2i,argon2id} × {m<8p, m multiple of 4p, m not a multiple of 4p, m just above 8p, segment length > 128} × lanes {1,2,3,4,5,8,16} × keyLen {1,4,16,31,32,33,63,64,65,96,97,128,129,300} (pure function of i, so every class is hit whatever the seed), with the seed choosing t in 1..3, the memory value inside its class, password (empty / 1..64 / 200 bytes) and salt (empty / 8 / 16 / 1..64 / 200 bytes); thorough adds lanes {6,7,31,32,64,128,255} and random keyLen 1..300. Each case is run on every block-function path of the build (SSE4.1 and SSE2 fallback in the default build, pure Go in the purego build) and each output is compared with the single-threaded RFC 9106 reference (h/ref/argon2ref); libgcrypt (non-empty pw/salt) and libsodium (1 lane, 16-byte salt, m>=8, keyLen>=16) are computed alongside and must agree with the reference, else the case is inconclusive. For m < 8p the reference uses 8p blocks while hashing the requested m (the property's statement). distinct = (mode, path, memory class, lanes, keyLen class, pw/salt emptiness); every case reaches the oracle, so every case is non-trivial. Password and salt are passed as guarded copies (exact capacity or spare capacity with a sentinel) that must be unchanged afterwards; the last 9 returned keys are kept and re-verified after later calls." + concRule)
+	m.Rule("case i = (mode, memory class, lanes, keyLen) taken from a fixed full-cycle enumeration of {argon2i,argon2id} × {m<8p, m multiple of 4p, m not a multiple of 4p, m just above 8p, segment length > 128} × lanes {1,2,3,4,5,8,16} × keyLen {1,4,16,31,32,33,63,64,65,96,97,128,129,300} (pure function of i, so every class is hit whatever the seed), with the seed choosing t in 1..3, the memory value inside its class, password (empty / 1..64 / 200 bytes) and salt (empty / 8 / 16 / 1..64 / 200 bytes); thorough adds lanes {6,7,31,32,64,128,255} and random keyLen 1..300. Each case is run on every block-function path of the build (SSE4.1 and SSE2 fallback in the default build, pure Go in the purego build) and each output is compared with the single-threaded RFC 9106 reference (h/ref/argon2ref); libgcrypt (non-empty pw/salt) and libsodium (1 lane, 16-byte salt, m>=8, keyLen>=16) are computed alongside and must agree with the reference, else the case is inconclusive. For m < 8p the reference uses 8p blocks while hashing the requested m (the property's statement). distinct = (mode, path, memory class, lanes, keyLen class, pw/salt emptiness); every case reaches the oracle, so every case is non-trivial. Password and salt are passed as guarded copies (exact capacity or spare capacity with a sentinel) that must be unchanged afterwards; the last 9 returned keys are kept and re-verified after later calls lanes stream: threads in {1,2,3,4,7,8,15,16,31,32,63,64,65,100,127,128,129,191,192,193,254,255} (thorough: every value 1..255), each with Key and IDKey at time 1 and the minimal memory 8*threads, with one memory value that is not a multiple of 4*threads and one below 8*threads, on every path, compared with the reference and libgcrypt (libsodium for one lane); a panic is a violation." + concRule)
 	m.Assume("h/ref/argon2ref (own BLAKE2b per RFC 7693, H', G, indexing per RFC 9106 §3) passes the RFC 9106 §5 vectors and the phc-winner-argon2 vectors and agrees with libgcrypt and libsodium in its unit test; libgcrypt GCRY_KDF_ARGON2 passes the same vectors (h/clib/gcryptkdf test)")
 	m.Assume("the Go race detector observes the lane goroutines (registry: race=true); data-race reports are turned into violations by the driver")
 
@@ -274,6 +274,110 @@ func TestC15(t *testing.T) {
 			m.Count("long_pw_or_salt", 1)
 		}
 	})
+
+	// ---------- lanes: the parallelism degree swept over its whole uint8 range ----------
+	laneList := []uint8{1, 2, 3, 4, 7, 8, 15, 16, 31, 32, 63, 64, 65, 100, 127, 128, 129, 191, 192, 193, 254, 255}
+	if m.Thorough() {
+		laneList = laneList[:0]
+		for v := 1; v <= 255; v++ {
+			laneList = append(laneList, uint8(v))
+		}
+	}
+	nLanes := 4 * len(laneList)
+	expWide := 0
+	for _, v := range laneList {
+		if v >= 64 {
+			expWide += 4
+		}
+	}
+	m.Cases("lanes", nLanes, func(i int64, r *rand.Rand) {
+		p := laneList[i/4]
+		sub := int(i % 4)
+		unit := 4 * uint32(p)
+		mode := sub % 2 // sub 0: Key, 1: IDKey at the minimal memory 8p; 2, 3: memory shapes, mode alternating with the lane index
+		var mem uint32
+		shape := "m=8p"
+		switch sub {
+		case 0, 1:
+			mem = 2 * unit
+		case 2:
+			mode = int(i/4) % 2
+			shape = "not-multiple-of-4p"
+			mem = unit*(2+uint32(r.IntN(2))) + 1 + uint32(r.IntN(int(unit)-1))
+		default:
+			mode = int(i/4+1) % 2
+			shape = "below-8p"
+			mem = 1 + uint32(r.IntN(int(2*unit)-1))
+		}
+		kl := uint32(32)
+		if sub >= 2 {
+			kl = c15KeyLens[r.IntN(len(c15KeyLens))]
+		}
+		pw, salt := mon.Bytes(r, 1+r.IntN(32)), mon.Bytes(r, 16)
+		y, modeName, fn := argon2ref.Argon2i, "argon2i", argon2.Key
+		if mode == 1 {
+			y, modeName, fn = argon2ref.Argon2id, "argon2id", argon2.IDKey
+		}
+		blocks := mem / unit * unit
+		if blocks < 2*unit {
+			blocks = 2 * unit
+		}
+		want := argon2ref.Hash(y, pw, salt, nil, nil, 1, mem, blocks, uint32(p), int(kl))
+		wit := map[string]any{"mode": modeName, "pw": mon.FullHex(pw), "salt": mon.FullHex(salt), "time": 1, "memory": mem, "threads": p, "keyLen": kl, "memory_shape": shape}
+		nwit := 0
+		if g, err := gcryptkdf.Argon2(y, pw, salt, nil, nil, 1, mem, uint32(p), int(kl)); err == nil {
+			nwit++
+			m.Count("lanes_witness:libgcrypt", 1)
+			if !bytes.Equal(g, want) {
+				m.Inconclusive(fmt.Sprintf("oracle conflict ref vs libgcrypt in lanes case %d (%s m=%d p=%d)", i, modeName, mem, p))
+				return
+			}
+		}
+		if p == 1 && sodiumpwhash.Usable(mode == 1, 16, 1, mem, int(kl)) {
+			if sd, err := sodiumpwhash.Hash(mode == 1, pw, salt, 1, mem, int(kl)); err == nil {
+				nwit++
+				m.Count("lanes_witness:libsodium", 1)
+				if !bytes.Equal(sd, want) {
+					m.Inconclusive(fmt.Sprintf("oracle conflict ref vs libsodium in lanes case %d", i))
+					return
+				}
+			}
+		}
+		for _, pa := range paths {
+			pa.set()
+			gp, gs := newGbuf(pw, gbufSpare()), newGbuf(salt, gbufSpare())
+			var got []byte
+			pv, stack := mon.Panics(func() { got = fn(gp.S(), gs.S(), 1, mem, p, kl) })
+			m.Eval()
+			m.Distinct(fmt.Sprintf("lanes=%d %s %s %s", p, modeName, pa.name, shape))
+			if pv != nil {
+				w := map[string]any{"path": pa.name, "panic": fmt.Sprint(pv), "site": mon.PanicSite(stack)}
+				for k, v := range wit {
+					w[k] = v
+				}
+				m.Violation(fmt.Sprintf("panic:lanes=%d", p), w)
+				continue
+			}
+			checkInputs(m, modeName+":"+pa.name, wit, map[string]*gbuf{"password": gp, "salt": gs})
+			if !bytes.Equal(got, want) {
+				w := map[string]any{"path": pa.name, "got": mon.Hex(got), "want": mon.Hex(want), "witnesses_agreeing_with_ref": nwit}
+				for k, v := range wit {
+					w[k] = v
+				}
+				m.Violation(fmt.Sprintf("wrong-key:lanes=%d:%s:%s", p, modeName, pa.name), w)
+			}
+		}
+		m.Count("lanes_cases", 1)
+		m.Count("lanes_cases:"+shape, 1)
+		if p >= 64 {
+			m.Count("lanes_cases_with_threads>=64", 1)
+		}
+	})
+	m.Gate("lanes_cases", nLanes, "every lane count of the list run with Key and IDKey at m=8p and with a non-multiple and a below-minimum memory value")
+	m.Gate("lanes_cases_with_threads>=64", expWide, "lane counts for which 4*threads no longer fits in a uint8")
+	m.Gate("lanes_cases:not-multiple-of-4p", len(laneList), "memory rounded down to a multiple of 4*threads, once per lane count")
+	m.Gate("lanes_cases:below-8p", len(laneList), "memory raised to the 8*threads minimum, once per lane count")
+	m.Gate("lanes_witness:libgcrypt", nLanes, "libgcrypt computed every lanes case and agreed with the reference")
 
 	nConc := c15Concurrent(m, purego)
 	concGates(m, nConc, true)
